@@ -389,19 +389,24 @@ def _run_threads(plan, k):
     k.probe("threads_run")
     results = []
     # pre-fill sequentially (scheduler not started: sequential lock semantics)
+    pre_tr = SeqTracer(k, SRC, 50_000)
+    pre_tr.__enter__()
     for op in plan.get("pre") or []:
         if op[0] == "clock":
             CLOCK.advance(op[1])
             continue
-        out = call(_do, w, op)
+        out = call(_do, w, op, tracer=pre_tr)
         if out.kind != "ok":
+            pre_tr.__exit__()
             if out.kind == "raised" and "summariser fault" in str(out.exc):
                 continue
-            k.violation("returns", out.kind if out.kind != "raised" else f"raised:{type(out.exc).__name__}", op[0],
-                        "during sequential pre-fill")
+            kind = {"raised": f"raised:{type(out.exc).__name__}", "step_budget": "no_return_within_step_budget",
+                    "deadlock": "self_deadlock"}.get(out.kind, out.kind)
+            k.violation("returns", kind, op[0], "during sequential pre-fill")
             return
         if op[0] == "autophagy":
             results.append(out.value[1])
+    pre_tr.__exit__()
 
     def body(ti, ops):
         def f():
@@ -461,9 +466,10 @@ def _run_threads(plan, k):
         return
     # quiescent: flush and balance the ledger
     expired = sum(r for r in results if isinstance(r, int))
-    out = call(lys.digest)
+    with SeqTracer(k, SRC, 50_000) as ftr:
+        out = call(lys.digest, tracer=ftr)
     if out.kind != "ok":
-        k.violation("returns", out.kind, "digest", "final flush")
+        k.violation("returns", "no_return_within_step_budget" if out.kind == "step_budget" else out.kind, "digest", "final flush")
         return
     if w.size() != 0:
         k.violation("conservation", "flush_left_items", "digest", f"{w.size()} items remain after digest()")
